@@ -798,7 +798,9 @@ Qed.
 
 Lemma check_samples_sound n samples : check_samples n samples = true -> Forall (fun s => 0 <= s < n) samples.
 Proof.
-  unfold check_samples, src_check_samples_bad, lmin, lmax. intro H.
+  unfold check_samples, src_check_samples_empty. destruct (Z.of_nat (length samples) =? 0) eqn:Hempty.
+  { intros _. apply Z.eqb_eq in Hempty. destruct samples; [constructor | simpl length in Hempty; lia]. }
+  unfold src_check_samples_bad, lmin, lmax. intro H.
   apply negb_true_iff, orb_false_iff in H. destruct H as [H1 H2].
   apply Z.ltb_ge in H1. rewrite Z.geb_leb in H2. apply Z.leb_gt in H2.
   apply Forall_forall. intros x Hx.
@@ -811,7 +813,8 @@ Lemma check_samples_complete n samples :
 Proof.
   intros Hne H. rewrite Forall_forall in H.
   assert (Hhd : In (hd 0 samples) samples) by (destruct samples; [congruence | left; reflexivity]).
-  unfold check_samples, src_check_samples_bad, lmin, lmax.
+  unfold check_samples, src_check_samples_empty. destruct (Z.of_nat (length samples) =? 0) eqn:Hempty; [reflexivity|].
+  unfold src_check_samples_bad, lmin, lmax.
   apply negb_true_iff, orb_false_iff. rewrite Z.geb_leb. split; [apply Z.ltb_ge | apply Z.leb_gt].
   - destruct (fold_min_in (hd 0 samples) samples) as [->|Hi]; [apply H; auto | apply H in Hi; lia].
   - destruct (fold_max_in (hd 0 samples) samples) as [->|Hi]; [apply H; auto | apply H in Hi; lia].
